@@ -7,8 +7,11 @@
    times, any sender, any hook, including hook transactions that carry withdrawals); Propose (honest root over any event range) / Delete; Claim m
    (the claim built from the RECORDED withdrawal m with [Merkle.prove] at the position found by its sequence); block time and height
    are free per L1 step; Admin1 (every L1 role / config / params update, batch record and IBC
-   environment change, for any bridge).  Not system steps (see docs/C08.md): CreateBridge
-   (fresh states may contain any bridge configs), ExecuteMessages-wrapped L2 messages. *)
+   environment change, for any bridge); Other (bridge creation, and deposit / propose / delete /
+   claim addressed to ANY OTHER bridge - guarded by the account-space assumptions: not spent
+   from our escrow, the other escrow and the community pool are not our escrow; a payout of
+   another bridge to our escrow counts as a donation).  Not system steps (see docs/C08.md):
+   ExecuteMessages-wrapped L2 messages. *)
 From stdpp Require Import gmap numbers list.
 From Coq Require Import ZArith.
 Require Import Model.Bytes Model.Bank Model.Hashes Model.Merkle Model.System.
